@@ -164,3 +164,82 @@ Proof.
   exact (proj2 (proj2 (proj2 HR))).
 Qed.
 End Context.
+
+(* ---- statements that are quiet for accelerator a ------------------------------------------------- *)
+Section Quiet.
+Variable orc : oracle.
+Variable a : acc.
+
+(* everything agrees except (possibly) the registers of [a] *)
+Definition Ra (m m' : mstate) : Prop :=
+  env m' = env m /\ ncalls m' = ncalls m /\ trace_strong (tr m) (tr m') /\
+  (forall b f, b <> a -> regs m' b f = regs m b f).
+
+Lemma Ra_env m m' : Ra m m' -> env m' = env m.
+Proof. intros H; exact (proj1 H). Qed.
+Lemma Ra_set m m' e : Ra m m' -> Ra (set_env m e) (set_env m' e).
+Proof. intros [He [Hn [Ht Hr]]]. repeat split; simpl; assumption. Qed.
+
+Lemma quiet_for iv lb ub sp its rs body ys : quiet a (SFor iv lb ub sp its rs body ys) = quiet_block a body.
+Proof.
+  cbn [quiet]. induction body as [|x b IH]; [reflexivity|]. cbn [quiet_block]. rewrite <- IH. reflexivity.
+Qed.
+Lemma quiet_if c rs th thy el ely : quiet a (SIf c rs th thy el ely) = quiet_block a th && quiet_block a el.
+Proof.
+  cbn [quiet]. f_equal.
+  - induction th as [|x b IH]; [reflexivity|]. cbn [quiet_block]. rewrite <- IH. reflexivity.
+  - induction el as [|x b IH]; [reflexivity|]. cbn [quiet_block]. rewrite <- IH. reflexivity.
+Qed.
+
+Lemma quiet_Ra_block : forall b, quiet_block a b = true -> forall m m', Ra m m' -> Ra (exec_block orc b m) (exec_block orc b m').
+Proof.
+  apply (block_ind2 (fun s => quiet a s = true -> forall m m', Ra m m' -> Ra (exec_stmt orc s m) (exec_stmt orc s m'))
+                    (fun b => quiet_block a b = true -> forall m m', Ra m m' -> Ra (exec_block orc b m) (exec_block orc b m'))).
+  - intros d e _ m m' [He [Hn [Ht Hr]]]. simpl. rewrite He. repeat split; simpl; assumption.
+  - intros g ef pu ds ar Hq m m' [He [Hn [Ht Hr]]]. simpl in Hq. apply Bool.negb_true_iff in Hq. subst ef.
+    simpl. unfold exec_call. rewrite He, Hn. repeat split; simpl; try assumption.
+    constructor; [simpl; auto|exact Ht].
+  - intros a' o i fs Hq m m' [He [Hn [Ht Hr]]]. simpl in Hq. apply Bool.negb_true_iff in Hq. apply Nat.eqb_neq in Hq.
+    simpl. unfold exec_setup. repeat split; simpl; try assumption.
+    intros b f Hb. unfold upd. destruct (Nat.eqb b a') eqn:E; [|exact (Hr b f Hb)].
+    rewrite He. apply write_fields_ext. intros g. apply Hr. apply Nat.eqb_eq in E. congruence.
+  - intros a' k st fs Hq m m' [He [Hn [Ht Hr]]]. simpl in Hq. apply Bool.negb_true_iff in Hq. apply Nat.eqb_neq in Hq.
+    simpl. unfold emit. repeat split; simpl; try assumption. rewrite He. constructor; [|exact Ht].
+    simpl. repeat split. intros f. symmetry. apply Hr. exact Hq.
+  - intros a' k _ m m' [He [Hn [Ht Hr]]]. simpl. unfold emit. repeat split; simpl; try assumption.
+    constructor; [apply ev_strong_refl|exact Ht].
+  - intros a' st _ m m' [He [Hn [Ht Hr]]]. simpl. unfold emit. repeat split; simpl; try assumption.
+    constructor; [apply ev_strong_refl|exact Ht].
+  - intros iv lb ub sp its rs body ys IH Hq m m' HR. rewrite quiet_for in Hq. rewrite !exec_stmt_for.
+    apply (rel_for_sim Ra Ra_env Ra_set); [exact (IH Hq)|exact HR].
+  - intros c rs th thy el ely IHt IHe Hq m m' HR. rewrite quiet_if in Hq. apply andb_true_iff in Hq.
+    rewrite !exec_stmt_if. apply (rel_if_sim Ra Ra_env Ra_set); [exact (IHt (proj1 Hq))|exact (IHe (proj2 Hq))|exact HR].
+  - intros _ m m' HR. exact HR.
+  - intros s b Hs Hb Hq m m' HR. simpl in Hq. apply andb_true_iff in Hq. simpl. apply (Hb (proj2 Hq)). apply (Hs (proj1 Hq)). exact HR.
+Qed.
+
+(* ... and they leave the registers of [a] alone *)
+Lemma quiet_regs_block : forall b, quiet_block a b = true -> forall m f, regs (exec_block orc b m) a f = regs m a f.
+Proof.
+  apply (block_ind2 (fun s => quiet a s = true -> forall m f, regs (exec_stmt orc s m) a f = regs m a f)
+                    (fun b => quiet_block a b = true -> forall m f, regs (exec_block orc b m) a f = regs m a f)).
+  - intros d e _ m f. reflexivity.
+  - intros g ef pu ds ar Hq m f. simpl in Hq. apply Bool.negb_true_iff in Hq. subst ef. reflexivity.
+  - intros a' o i fs Hq m f. simpl in Hq. apply Bool.negb_true_iff in Hq. apply Nat.eqb_neq in Hq.
+    simpl. rewrite upd_other by congruence. reflexivity.
+  - intros a' k st fs _ m f. reflexivity.
+  - intros a' k _ m f. reflexivity.
+  - intros a' st _ m f. reflexivity.
+  - intros iv lb ub sp its rs body ys IH Hq m f. rewrite quiet_for in Hq. rewrite exec_stmt_for. unfold exec_for. simpl.
+    set (step := for_step (exec_block orc body) iv (map it_arg its) ys (env m lb) (env m sp)).
+    set (m0 := set_env m (bind_list (map it_arg its) (map (fun x => env m (it_init x)) its) (env m))).
+    assert (Hl : forall k, regs (iter_n k step m0) a f = regs m a f).
+    { induction k as [|k IHk]; [reflexivity|]. cbn [iter_n]. unfold step at 1, for_step. simpl.
+      rewrite (IH Hq). simpl. exact IHk. }
+    apply Hl.
+  - intros c rs th thy el ely IHt IHe Hq m f. rewrite quiet_if in Hq. apply andb_true_iff in Hq.
+    rewrite exec_stmt_if. unfold exec_if. destruct (env m c =? 0); simpl; [apply (IHe (proj2 Hq))|apply (IHt (proj1 Hq))].
+  - intros _ m f. reflexivity.
+  - intros s b Hs Hb Hq m f. simpl in Hq. apply andb_true_iff in Hq. simpl. rewrite (Hb (proj2 Hq)). apply (Hs (proj1 Hq)).
+Qed.
+End Quiet.
